@@ -18,45 +18,15 @@ def run(ctx):
     attach(r2, dd, only={"del:mark-position-is-the-delivery's-mpos"})
     eff = qsend.effect_sites(db)
     attach(r2, eff, only={'effect:markdone-writes-one-byte-D-at-pos'})
-    ds = prog.fn('del_start', 'qmail-send.c')
-    asg = [x for x in ds.all_x() if x.k == 'asg' and (x.args[0].path() or '').endswith('.mpos')]
-    r2.check(len(asg) == 1 and asg[0].args[1].path() == 'P:mpos', 'del_start-stores-its-mpos-argument', ds.unit + ':del_start', 'd[c][i].mpos must be assigned the mpos parameter unchanged')
+    dst = qsend.analyse_del_start(db, rep)
+    attach(r2, dst, only={'ds:slot-records-job-and-mark-position'})
     attach(r2, ps, only={'pass:a-new-pass-marks-from-offset-0'})
     r2.expect_min(7)
 
     r3 = rep.rule('C04.3-concurrency-bound', 'R-GUARD', 'a delivery slot is taken only for an index below concurrency[c] found unused; used=1 and ++concurrencyused come together, used=0 and --concurrencyused come together; del_avail bounds the count; concurrency clamped to the spawner\'s byte')
-    used1 = [x for x in ds.all_x() if x.k == 'asg' and (x.args[0].path() or '').endswith('.used') and x.args[1].const == 1]
-    inc = [x for x in ds.all_x() if x.k == 'un' and x.op in ('pre++', 'post++') and (x.args[0].path() or '').startswith('G:concurrencyused[')]
-    r3.check(len(used1) == 1 and len(inc) == 1 and ds.pos[used1[0].id][0] == ds.pos[inc[0].id][0], 'del_start:used=1-with-++concurrencyused', ds.unit + ':del_start', 'slot marking and counter increment must happen together')
-    if used1:
-        g = ds.guards(used1[0]) or []
-        full = False
-        for c, t in g:
-            cs = c.strip()
-            if cs.k == 'bin' and cs.op == '==' and t is False and {(cs.args[0].path() or '').split('#')[0], (cs.args[1].path() or '').split('[')[0]} == {'L:i', 'G:concurrency'}:
-                full = True
-        r3.check(full, 'del_start:no-slot-when-scan-reaches-concurrency', used1[0].where, 'slot taken without the test i == concurrency[c] -> return')
-        # the scan: loop bounded by i < concurrency[c], leaves at first unused slot
-        scan = False
-        for b in ds.blocks.values():
-            if b.term and b.term.get('k') == 'for' and b.cond is not None:
-                cs = b.cond.strip()
-                if cs.k == 'bin' and cs.op == '<' and (cs.args[1].path() or '').startswith('G:concurrency['):
-                    scan = True
-        r3.check(scan, 'del_start:scan-bounded-by-concurrency', ds.unit + ':del_start', 'slot scan must be bounded by i < concurrency[c]')
-    f = prog.fn('del_dochan', 'qmail-send.c')
-    used0 = [x for x in f.all_x() if x.k == 'asg' and (x.args[0].path() or '').endswith('.used') and x.args[1].const == 0]
-    dec = [x for x in f.all_x() if x.k == 'un' and x.op in ('pre--', 'post--') and (x.args[0].path() or '').startswith('G:concurrencyused[')]
-    r3.check(len(used0) == 1 and len(dec) == 1 and f.pos[used0[0].id][0] == f.pos[dec[0].id][0], 'del_dochan:used=0-with---concurrencyused', f.unit + ':del_dochan', 'slot release and counter decrement must happen together')
-    da = prog.fn('del_avail', 'qmail-send.c')
-    okb = False
-    for x in da.all_x():
-        if x.k == 'bin' and x.op in ('<', '>'):
-            names = {(x.args[0].path() or '').split('[')[0], (x.args[1].path() or '').split('[')[0]}
-            if names == {'G:concurrencyused', 'G:concurrency'}:
-                lhs_used = (x.args[0].path() or '').startswith('G:concurrencyused')
-                okb = (x.op == '<') == lhs_used
-    r3.check(okb, 'del_avail:concurrencyused<concurrency', da.unit + ':del_avail', 'del_avail must contain concurrencyused[c] < concurrency[c]')
+    attach(r3, dst, only={'ds:no-slot-no-effect', 'ds:announced-delivery-number-is-a-slot-below-concurrency', 'ds:slot-taken-with-counter-and-reference',
+                         'ds:announced-message-is-the-job-message', 'ds:full-table-starts-nothing', 'ds:a-slot-in-use-is-never-taken', 'ds:del_avail-iff-concurrencyused<concurrency'})
+    attach(r3, dd, only={'del:slot-release-and-counter-decrement-come-together', 'del:slot-freed-only-after-job_close'})
     attach(r3, ps, only={'pass:record-read-only-when-a-delivery-slot-is-free'})
     attach(r3, qsend.clamp_sites(db), prefixes=['clamp:'])
     r3.expect_min(9)
@@ -81,9 +51,8 @@ def run(ctx):
     attach(r4, ps, only={'pass:removed-entry-is-handed-to-a-job-or-reinserted', 'pass:delmin-on-the-queue-just-inspected'})
     td = qsend.analyse_todo_do(db, rep)
     attach(r4, td, only={'todo:schedule-only-after-qmail-clean-confirmed', 'todo:nothing-removed-after-files-are-being-written'})
-    refs = [x for x in ds.all_x() if x.k == 'un' and x.op in ('pre++', 'post++') and (x.args[0].path() or '').endswith('.refs')]
-    jcs = f.calls('job_close')
-    r4.check(len(refs) == 1 and len(jcs) == 1, 'refs++-in-del_start-matched-by-job_close-in-del_dochan', ds.unit, 'reference counting sites: %d increments, %d job_close' % (len(refs), len(jcs)))
+    attach(r4, dst, only={'ds:slot-taken-with-counter-and-reference'})
+    attach(r4, dd, only={'del:slot-freed-only-after-job_close'})
     r4.expect_min(6)
 
     r5 = rep.rule('C04.5-TERM', 'R-GUARD', 'after TERM nothing new is started: the scanners return at once when flagexitasap; the loop ends only when no delivery is in flight; retry times are saved')
